@@ -159,6 +159,7 @@ func run(c *props.Ctx) {
 	k.persist10()
 	k.persist11()
 	k.persist13()
+	k.persist14(pairs)
 
 	if len(c.P.Controls) > 0 {
 		k.finishControls()
@@ -182,6 +183,7 @@ func run(c *props.Ctx) {
 	c.R.Floor("PERSIST-10", 1)
 	c.R.Floor("PERSIST-11", 1)
 	c.R.Floor("PERSIST-13", 2)
+	c.R.Floor("PERSIST-14", 2)
 	c.R.Floor("SAVE-2", 1)
 	c.R.Floor("SAVE-3", 1)
 }
